@@ -248,7 +248,10 @@ def _ctor_bool(x=False):
 def _ctor_int(x=0, base=None):
     if base is not None:
         if isinstance(x, (SymStr, DecStr)):
-            raise Unsupported('int(symbolic, base)')
+            if base == 16 and isinstance(x, SymStr):
+                from . import symuuid
+                return symuuid.parse_hex(x)
+            raise Unsupported('int(symbolic, base %r)' % (base,))
         return _b.int(x, base)
     if isinstance(x, SymInt):
         return x
